@@ -40,11 +40,17 @@ Definition scast (bits z : Z) : Z := (z + 2 ^ (bits - 1)) mod 2 ^ bits - 2 ^ (bi
 Definition lcg_next (s : Z) : Z :=
   u64 (Z.rem (s64 (s64 giv_multiplier * s64 s)) (s64 giv_modulo)).
 
-(* GivRandom(const uint64_t s = 0) : _seed(s) { while (! _seed) _seed = (uint64_t)BaseTimer::seed(); }
-   the timer is a list of readings; None = readings exhausted (loop still running) *)
+(* GivRandom(const uint64_t s = 0) : _seed(s) { while (! _seed) _seed = (uint64_t)BaseTimer::seed(); [ N ] }
+   the timer is a list of readings; None = readings exhausted (loop still running).
+   [ N ] is the normalisation statement   _seed = (_seed - 1) % (_GIVRAN_MODULO_ - 1) + 1;   (uint64_t arithmetic)
+   of the repaired constructor; Params.giv_ctor_normalises says whether the tree under check has it. *)
+Definition giv_norm (s : Z) : Z :=
+  if giv_ctor_normalises then u64 (u64 (s - 1) mod u64 (giv_modulo - 1) + 1) else s.
 Fixpoint giv_ctor (timer : list Z) (s : Z) {struct timer} : option Z :=
   if s =? 0 then match timer with [] => None | t :: ts => giv_ctor ts (u64 t) end
-  else Some s.
+  else Some (giv_norm s).
+(* construction from a non-zero seed never reads the timer *)
+Definition giv_ctor_nz (s : Z) : Z := giv_norm s.
 
 (* n successive calls of operator()() : the values returned (the state is the last value) *)
 Fixpoint lcg_draws (n : nat) (s : Z) : list Z :=
@@ -129,6 +135,18 @@ Definition poly_random (fuel : nat) (init : Z -> Z) (d : nat) (s : Z) : option (
   | None => None
   | Some (lead, s1) => let '(low, s2) := poly_low d init s1 in Some (rev low ++ [lead], s2)
   end.
+
+(* Poly1Dom<GFqDom<TT>,Dense>::random(g, r, Degree d): the same loop over the table field, whose two-argument draws are
+   random(g,r) = random(g,r,_q) and nonzerorandom(g,r) = nonzerorandom(g,r,_q) (one generator value each, no retry) *)
+Fixpoint poly_low_gfq (n : nat) (bits q s : Z) : list Z * Z :=
+  match n with
+  | O => ([], s)
+  | S k => let '(c, s1) := gfq_random bits q q s in
+           let '(cs, s2) := poly_low_gfq k bits q s1 in (c :: cs, s2)
+  end.
+Definition poly_random_gfq (bits q : Z) (d : nat) (s : Z) : list Z * Z :=
+  let '(lead, s1) := gfq_nonzerorandom bits q q s in
+  let '(low, s2) := poly_low_gfq d bits q s1 in (rev low ++ [lead], s2).
 
 (* ================================================================ Part C: Integer draws over a GMP oracle *)
 
@@ -246,3 +264,11 @@ Definition modru_random (limbs : nat -> Z) (k : nat) (p : Z) (i : nat) : Z * nat
 Definition orc_of_list (raw : list Z) : nat -> req -> Z :=
   fun i q => let v := nth i raw 0 in
              match q with QBits n => v mod 2 ^ n | QRange m => v mod m end.
+
+(* Modular<ruint<K>>::nonzerorandom(g, a) { while (isZero(random(g, a))) { } return a; }   (also Montgomery<ruint<K>>) *)
+Fixpoint modru_nonzerorandom (fuel : nat) (limbs : nat -> Z) (k : nat) (p : Z) (i : nat) : option (Z * nat) :=
+  match fuel with
+  | O => None
+  | S f => let '(r, i1) := modru_random limbs k p i in
+           if r =? 0 then modru_nonzerorandom f limbs k p i1 else Some (r, i1)
+  end.
